@@ -158,10 +158,13 @@ PROPS["C05"]["functions"] += _UNIT_ALG[:5] + _QTY_ALG
 ALL_IDS = [f"C{i:02d}" for i in range(1, 21)]
 
 PROPS["C07"] = dict(
-    functions=[T + "_pow", T + "Term._reduce_items"],
+    functions=[T + "_pow", T + "Term._reduce_items", T + "_filter_items",
+               T + "_reciprocal"],
     standins=["C07"], level="other",
-    level_note="only the exact power helper and the fast paths (one or two "
-               "items) of the item reduction are verified; the general sort / "
+    level_note="only the exact power helper, the item filter and the item "
+               "reciprocal (item tuples of length 1..3) and the fast paths "
+               "(one or two items) of the item reduction are verified; the "
+               "general sort / "
                "group / merge path, recursive normalisation, the memoised "
                "normal form and hash are bounded")
 
